@@ -4,6 +4,7 @@ allocation size, release/re-seat pairing, swap hand-over, rule of three.
 Decides necessary conditions only (DESIGN.md section 3, C08); content equality with a
 reference byte queue is not decided."""
 from .. import q, fin
+from .. import containers as C
 from ..facts import AnalysisBroken
 from . import lin_buffer
 from . import c08_alias
@@ -57,11 +58,26 @@ def run(prog, chk):
             writes = q.field_writes(f, "bufferEnd")
             T = term_stores(f)
             wnodes = [w.node for w in writes if w.node is not None]
+            # a zero stored through the very address that is (or becomes) bufferEnd terminates it as well, whichever of the two
+            # statements comes first: `*emptyPos = 0; bufferEnd = emptyPos;`  `newBuffer[size] = 0; bufferEnd = newBuffer + size;`
+            zero_at = {}
+            for s_ in q.stores(f):
+                if s_.op != "=" or s_.rhs is None or not q.is_zero(f, s_.rhs):
+                    continue
+                l_ = f.nodes[s_.lhs]
+                if l_["k"] == "UnaryOperator" and l_.get("op") == "*" and l_["c"]:
+                    zero_at.setdefault(q.no_casts(q.xr(f, l_["c"][0], defs)).strip("()"), []).append(s_.node)
+                elif l_["k"] == "ArraySubscriptExpr":
+                    zero_at.setdefault("%s + %s" % (q.no_casts(q.xr(f, l_["c"][0], defs)).strip("()"), q.no_casts(q.xr(f, l_["c"][1], defs)).strip("()")), []).append(s_.node)
             for w in writes:
                 st = sat.get(w.pos, "top")
                 what = "write of bufferEnd at line %s" % (f.nodes[w.node]["l"] if w.node is not None else f.line)
                 if st == "null":
                     chk.ok("C08.a", f, what, f.where(w.node) if w.node is not None else "", "buffer is null on every path to this write (non-owning)")
+                    continue
+                same = zero_at.get(q.no_casts(q.xr(f, w.rhs, defs)).strip("()"), []) if getattr(w, "rhs", None) is not None else []
+                if same and C.paths_all_pass(f, w.pos, q.pos_of(f, same)):
+                    chk.ok("C08.a", f, what, f.where(w.node) if w.node is not None else "", "a zero is stored through the same address on every path through this write", evals=2)
                     continue
                 avoid = q.pos_of(f, T) | (q.pos_of(f, wnodes) - {w.pos})
                 # a path that leaves over the `buffer is null` edge of a test ends in a non-owning buffer: no terminator is owed there
